@@ -263,6 +263,19 @@ func checkIndependence(instances []psatoken.IClaims) bool {
 	for i, c := range instances {
 		before[i] = snap(c)
 	}
+	// the profile claim is an object of its own: changing it in one instance must not reach the others
+	for i, x := range instances {
+		if t, ok := x.(*psatoken.P2Claims); ok && t.Profile != nil {
+			_ = t.Profile.Set("http://example.com/mutated-in-place")
+			for j := range instances {
+				if j != i && snap(instances[j]) != before[j] {
+					return false
+				}
+			}
+			before[i] = snap(x)
+			break
+		}
+	}
 	c := instances[0]
 	_ = c.SetClientID(-99)
 	_ = c.SetSecurityLifeCycle(0x6001)
